@@ -35,6 +35,8 @@ type RaceCase struct {
 	// next index file appears. FaultUS: when, after the workers started.
 	Fault   int `json:"fault,omitempty"`
 	FaultUS int `json:"fault_us,omitempty"`
+	// GCLimitUS: time limit of the collectors' cycles (0 = none).
+	GCLimitUS int `json:"gc_limit_us,omitempty"`
 }
 
 const (
@@ -82,6 +84,7 @@ func genRace(t *rapid.T) RaceCase {
 	c.SyncUS = []int{200, 500, 1000, 3000}[rapid.IntRange(0, 3).Draw(t, "sync")]
 	c.GCUS = []int{200, 500, 1000, 3000, 0}[rapid.IntRange(0, 4).Draw(t, "gc")]
 	c.BackPressure = weighted(t, "backpressure", []int{3, 1}) == 1
+	c.GCLimitUS = []int{0, 20, 100, 500}[weighted(t, "gclimit", []int{3, 1, 1, 1})]
 	c.Fault = weighted(t, "fault", []int{5, 1, 1})
 	if c.Fault > 0 {
 		c.FaultUS = []int{0, 300, 1000, 3000}[rapid.IntRange(0, 3).Draw(t, "faultus")]
@@ -118,7 +121,7 @@ func runRace(c RaceCase) {
 	}
 	s, err := store.OpenStore(bg, c.Cfg.Primary, filepath.Join(dir, dataBase), filepath.Join(dir, idxBase), false,
 		store.IndexBitSize(c.Cfg.Bits), store.IndexFileSize(c.Cfg.IdxSize), store.PrimaryFileSize(c.Cfg.PrimSize), store.FileCacheSize(c.Cfg.FileCache),
-		store.GCInterval(gcI), store.GCTimeLimit(0), store.SyncInterval(time.Duration(c.SyncUS)*time.Microsecond), store.BurstRate(burst), store.SyncOnFlush(c.Cfg.Sync))
+		store.GCInterval(gcI), store.GCTimeLimit(time.Duration(c.GCLimitUS)*time.Microsecond), store.SyncInterval(time.Duration(c.SyncUS)*time.Microsecond), store.BurstRate(burst), store.SyncOnFlush(c.Cfg.Sync))
 	if err != nil {
 		panic(infraError{err})
 	}
